@@ -257,18 +257,18 @@ CHECKERS = {'maps': check_maps, 'conv': check_conv, 'alternate': check_alternate
 
 
 def strata(tier, seed):
-    lim = 10 if tier == 'quick' else 12
-    ms = [dict(d=d, q=q, long=(40001 if (d, q) in ((2, 3), (3, 2), (1, 5)) else 0)) for d in range(1, 13) for q in range(1, 13) if d * q <= lim]
-    yield Stratum('index maps on their complete domain', ms, 'maps', size=len(ms), chunk=1, bounds={'q*d': '<= %d' % lim})
+    lim = 10 if tier == 'quick' else 16
+    ms = [dict(d=d, q=q, long=(40001 if (d, q) in ((2, 3), (3, 2), (1, 5)) else 0)) for d in range(1, 17) for q in range(1, 17) if d * q <= lim]
+    yield Stratum('index maps on their complete domain', ms, 'maps', seq=(tier == 'quick'), size=len(ms), chunk=1, bounds={'q*d': '<= %d' % lim})
     cs = []
-    for d in (1, 2, 3):
-        for q in (1, 2, 3):
-            if d * q > (6 if tier == 'quick' else 9):
+    for d in ((1, 2, 3) if tier == 'quick' else (1, 2, 3, 4)):
+        for q in ((1, 2, 3) if tier == 'quick' else (1, 2, 3, 4)):
+            if d * q > (6 if tier == 'quick' else 12):
                 continue
             n = 2 ** q
-            profs = space.rank_profiles(d, [1, 2, 3, 4] if (d <= 2) else ([1, 3] if tier == 'quick' else [1, 2, 4]))
+            profs = space.rank_profiles(d, [1, 2, 3, 4] if (d <= 2) else ([1, 3] if tier == 'quick' else ([1, 2, 4] if d == 3 else [1, 3])))
             for rk in profs:
-                for kind in ('gen', 'intA'):
+                for kind in (('gen', 'intA') if tier == 'quick' else ('gen', 'intA', 'intB', 'intC')):
                     cs.append(dict(shape=[n] * d, ranks=rk, kind=kind, caps=[1, 2, 100, 1e12], seed=seed))
             for pos in itertools.product(range(n), repeat=d):
                 cs.append(dict(shape=[n] * d, ranks=[1] + [2] * (d - 1) + [1], kind='delta', pos=list(pos), caps=[1, 100], seed=seed))
@@ -279,7 +279,7 @@ def strata(tier, seed):
                 cs.append(dict(shape=[n] * d, ranks=rk, kind=kind, caps=[2, 100, 1e12], seed=seed))
         for pos in ([[0] * d, [n - 1] * d, [5] * d, [n // 2 + 1] + [3] * (d - 1)]):
             cs.append(dict(shape=[n] * d, ranks=[1] + [2] * (d - 1) + [1], kind='delta', pos=pos, caps=[1, 100], seed=seed))
-    yield Stratum('tt <-> qtt conversion', cs, 'conv', size=len(cs), chunk=8, bounds={'d': [1, 3], 'q': [1, 3]})
-    al = [dict(shape=[2 ** q] * d, ranks=rk, kind='gen', depth=4, opts=[(1e-12, 100), (1e-8, 1e12)], seed=seed)
-          for d in (1, 2, 3) for q in (1, 2, 3) if d * q <= 6 for rk in space.rank_profiles(d, [1, 3])]
-    yield Stratum('alternating conversions', al, 'alternate', size=len(al), chunk=4, bounds={'depth': 4})
+    yield Stratum('tt <-> qtt conversion', cs, 'conv', seq=(tier == 'quick'), size=len(cs), chunk=8, bounds={'d': [1, 3 if tier == 'quick' else 4], 'q': [1, 3 if tier == 'quick' else 4], 'd*q': 6 if tier == 'quick' else 12})
+    al = [dict(shape=[2 ** q] * d, ranks=rk, kind='gen', depth=4 if tier == 'quick' else 6, opts=[(1e-12, 100), (1e-8, 1e12)], seed=seed)
+          for d in (1, 2, 3, 4) for q in (1, 2, 3, 4) if d * q <= (6 if tier == 'quick' else 9) for rk in space.rank_profiles(d, [1, 3] if tier == 'quick' else [1, 2, 3])]
+    yield Stratum('alternating conversions', al, 'alternate', seq=(tier == 'quick'), size=len(al), chunk=4, bounds={'depth': 4 if tier == 'quick' else 6})
